@@ -56,6 +56,14 @@ func (a acq) writer() bool {
 	return a.Form != "open" && a.Form != "rdonly"
 }
 
+// creates: the form makes the file if it is missing
+func (a acq) creates() bool {
+	if fl, ok := a.flags(); ok {
+		return fl&os.O_CREATE != 0
+	}
+	return a.Form == "create" || a.Form == "edit" || a.Form == "mutex" || a.Form == "mutexShared"
+}
+
 func flagName(fl int) string {
 	var p []string
 	switch fl & (os.O_WRONLY | os.O_RDWR) {
@@ -315,6 +323,12 @@ func acquireOnce(m monitor, dir string, shared *lockedfile.Mutex, th int, a acq)
 		}
 		if a.Path == "r" && a.writer() && os.IsPermission(err) {
 			return // no permission to write: refused, nothing is held
+		}
+		if fl, ok := a.flags(); ok && fl&os.O_EXCL != 0 && os.IsExist(err) {
+			return // O_EXCL and the file is there (already, or made by another holder): refused, nothing is held
+		}
+		if a.Path == "n" && !a.creates() && os.IsNotExist(err) {
+			return // nothing there yet and this form does not create: refused, nothing is held
 		}
 		m.fail(fmt.Sprintf("thread %d: %s failed: %v", th, a, err))
 		return
@@ -720,6 +734,19 @@ func scenarios(th bool) []scenario {
 		rd := a(fmt.Sprintf("flags:%d", fl), "p")
 		scs = append(scs, scenario{"R(flags)||R", [][]acq{{rd}, {a("open", "p")}}, fb, false},
 			scenario{"R(flags)||W", [][]acq{{rd}, {a("edit", "p")}}, fb, false})
+	}
+	// O_CREATE|O_EXCL: the caller that creates the file holds it write-locked
+	// like any other writer; at an existing path the call fails and holds nothing
+	for _, mode := range []int{os.O_WRONLY, os.O_RDWR} {
+		ex := a(fmt.Sprintf("flags:%d", mode|os.O_CREATE|os.O_EXCL), "n")
+		exT := a(fmt.Sprintf("flags:%d", mode|os.O_CREATE|os.O_EXCL|os.O_TRUNC), "n")
+		scs = append(scs,
+			scenario{"excl(new)||R(new)", [][]acq{{ex}, {a("open", "n")}}, fb, false},
+			scenario{"excl(new)||edit(new)", [][]acq{{ex}, {a("edit", "n")}}, fb, false},
+			scenario{"excl(new)||excl(new)", [][]acq{{ex}, {ex}}, fb, false},
+			scenario{"excl(new)||M(new)", [][]acq{{ex}, {a("mutex", "n")}}, fb, false},
+			scenario{"excl+trunc(new)||create(new)", [][]acq{{exT}, {a("create", "n")}}, fb, false},
+			scenario{"excl(existing)||W", [][]acq{{a(fmt.Sprintf("flags:%d", mode|os.O_CREATE|os.O_EXCL), "p")}, {a("edit", "p")}}, fb, false})
 	}
 	// P-mode: the same holders as separate OS processes (no shared *Mutex value there)
 	pb := 2
